@@ -54,6 +54,9 @@ type Cmd struct {
 	X int    `json:"x"` // release: second argument of the pending call to release (-1: oldest)
 	D int    `json:"d"` // advance: units
 	V int    `json:"v"` // send: the value (filled in by the controller)
+	// burst: the sub-commands are issued back to back, without waiting for quiescence in between and without letting
+	// any other goroutine run (GOMAXPROCS is 1 for the duration): e.g. fill the input buffer and cancel "at the same time"
+	Sub []Cmd `json:"sub,omitempty"`
 }
 
 type Ev struct {
@@ -119,6 +122,7 @@ type ctl struct {
 
 	ins     []chan int
 	newSnd  chan<- int
+	inline  bool // inside a burst
 	outs    map[string]func() (int, bool)
 	outLen  map[string]func() int
 	outName []string
@@ -593,6 +597,28 @@ func (c *ctl) issue(cmd *Cmd) {
 		c.sendIdx[i]++
 		c.sendPend[i] = true
 		ch := c.sendCh(i)
+		if c.inline {
+			// inside a burst: complete the send here if it cannot block, so that nothing else runs before the next sub-command
+			done := false
+			func() {
+				defer func() {
+					if r := recover(); r != nil {
+						c.emit(Ev{E: "sendpanic", I: i, V: v})
+						done = true
+					}
+				}()
+				select {
+				case ch <- v:
+					c.emit(Ev{E: "sent", I: i, V: v})
+					done = true
+				default:
+				}
+			}()
+			if done {
+				c.sendPend[i] = false
+				break
+			}
+		}
 		go func() {
 			defer func() {
 				if r := recover(); r != nil {
@@ -639,15 +665,35 @@ func (c *ctl) issue(cmd *Cmd) {
 // step issues one command (if enabled), lets the library run to quiescence and records the window.
 func (c *ctl) step(cmd Cmd, wins *[]Window) {
 	w := Window{Cmd: cmd, Done: []Ev{}}
-	c.mu.Lock()
-	en := c.enabled(cmd)
-	c.mu.Unlock()
-	if !en {
-		w.Skipped = true
+	if cmd.C == "burst" {
+		prev := runtime.GOMAXPROCS(1)
+		c.inline = true
+		issued := []Cmd{}
+		for _, sc := range cmd.Sub {
+			c.mu.Lock()
+			en := sc.C != "burst" && sc.C != "advance" && c.enabled(sc)
+			c.mu.Unlock()
+			if en {
+				c.issue(&sc)
+				issued = append(issued, sc)
+			}
+		}
+		c.inline = false
+		w.Cmd.Sub = issued
+		w.Skipped = len(issued) == 0
+		synctest.Wait()
+		runtime.GOMAXPROCS(prev)
 	} else {
-		c.issue(&w.Cmd)
+		c.mu.Lock()
+		en := c.enabled(cmd)
+		c.mu.Unlock()
+		if !en {
+			w.Skipped = true
+		} else {
+			c.issue(&w.Cmd)
+		}
+		synctest.Wait()
 	}
-	synctest.Wait()
 	c.mu.Lock()
 	w.Done = append(w.Done, c.done...)
 	c.done = c.done[:0]
@@ -760,7 +806,7 @@ func (c *ctl) epilogue(kind string, wins *[]Window) {
 	}
 }
 
-var weightsDefault = map[string]int{"send": 4, "close": 1, "recv": 4, "cancel": 1, "release": 4, "advance": 1}
+var weightsDefault = map[string]int{"send": 4, "close": 1, "recv": 4, "cancel": 1, "release": 4, "advance": 1, "burst": 2}
 
 func (c *ctl) randomCmds(r *Random, wins *[]Window) {
 	rng := rand.New(rand.NewSource(r.Seed))
@@ -798,6 +844,15 @@ func (c *ctl) randomCmds(r *Random, wins *[]Window) {
 		add(Cmd{C: "advance", D: 1})
 		if len(opts) == 0 {
 			return
+		}
+		if wt["burst"] > 0 && rng.Intn(10) < wt["burst"] {
+			// a burst of 2-4 of the currently possible moves (those that stop being possible on the way are dropped)
+			b := Cmd{C: "burst"}
+			for k := 2 + rng.Intn(3); k > 0; k-- {
+				b.Sub = append(b.Sub, opts[rng.Intn(len(opts))])
+			}
+			c.step(b, wins)
+			continue
 		}
 		c.step(opts[rng.Intn(len(opts))], wins)
 	}
